@@ -63,7 +63,9 @@ func PaymentApp(k int) channel.App {
 		rng := kernel.NewRand(kernel.Derive(0xa99, len(apps)))
 		id := simchannel.AppID{Address: simwallet.NewRandomAddress(rng)}
 		appIDs = append(appIDs, id)
-		apps = append(apps, &payment.App{ID: id})
+		app := &payment.App{ID: id}
+		channel.RegisterApp(app) // so that encoded states and proposals naming it can be decoded
+		apps = append(apps, app)
 	}
 	return apps[k]
 }
